@@ -119,6 +119,56 @@ theorem dirImage_asis_sound (d : Dir N) : CrashImage d (dirImage .asis d) := by
   | none => simp [dirImage, hd]
   | some f => exact ⟨f.data, by simp [dirImage, hd, imageOf], Nat.le_refl _, rfl⟩
 
+def dcNoFile : Dir Nat := fun _ => none
+
+/-! ## the fsync is necessary at EVERY size (the class "the save protocol differs by size class") -/
+
+/-- what `atomicReplace` degenerates to when a size class leaves the fsync out ("large values are
+synced later by a background task"): temp file, write, rename. Not code of the pinned tree — the
+run checks at the boundaries of every size constant of the source that the real routines never
+produce this trace. -/
+def atomicReplaceNoSync (tmp fin : N) (bs : Bytes) : List (Op N) :=
+  [.create tmp, .write tmp bs, .rename tmp fin]
+
+/-- the fsync before the rename cannot be left out for ANY content length: for every `bs`, every
+old directory and every pair of distinct names, the protocol without it has a crash image in which
+the final name exists and is EMPTY (the rename is on disk, the data is not). For a non-empty `bs`
+over an old value that is absent or non-empty this is neither the old nor the new state. -/
+theorem atomic_replace_fsync_necessary (d0 : Dir N) {tmp fin : N} (bs : Bytes) (hne : tmp ≠ fin) :
+    ∃ img, Crash (atomicReplaceNoSync tmp fin bs) d0 img ∧ img fin = some [] ∧
+      (bs ≠ [] → img fin ≠ some bs) ∧ (dataOf d0 fin ≠ some [] → img fin ≠ dataOf d0 fin) := by
+  let t : List (Op N) := atomicReplaceNoSync tmp fin bs
+  refine ⟨fun n => if n = fin then some [] else dirImage .asis (run d0 t) n, ⟨t, ?_, ?_⟩, by simp, ?_, ?_⟩
+  · exact Cut.next _ (Cut.next _ (Cut.next _ (Cut.stop [])))
+  · intro n
+    by_cases h : n = fin
+    · subst h
+      have hr : run d0 t n = some ⟨[] ++ bs, 0⟩ := by
+        simp [t, atomicReplaceNoSync, run, step, upd, hne, Ne.symm hne]
+      rw [hr]
+      exact ⟨[], by simp, by simp [FileImage]⟩
+    · have := dirImage_asis_sound (run d0 t) n
+      simpa [h] using this
+  · intro hb h
+    simp at h
+    exact hb h
+  · intro ho h
+    simp at h
+    exact ho h.symm
+
+/-- `DiskCache::write_file` with the fsync left out for some size class: for every non-empty value
+of that class a cold `get` after a crash can return a value (the empty one) that is neither the old
+value / miss nor the new value. -/
+theorem disk_cache_write_fsync_necessary (d0 : Dir N) {tmp fin : N} (bs : Bytes) (hne : tmp ≠ fin)
+    (hb : bs ≠ []) (hold : diskCacheGet (dataOf d0) fin ≠ some []) :
+    ∃ img, Crash (atomicReplaceNoSync tmp fin bs) d0 img ∧
+      diskCacheGet img fin ≠ diskCacheGet (dataOf d0) fin ∧ diskCacheGet img fin ≠ some bs := by
+  obtain ⟨img, hc, _, h1, h2⟩ := atomic_replace_fsync_necessary d0 bs hne
+  exact ⟨img, hc, h2 hold, h1 hb⟩
+
+/-- the hypotheses are satisfiable: a miss before the save, a one-byte value. -/
+example : ([7] : Bytes) ≠ [] ∧ diskCacheGet (dataOf dcNoFile) 0 ≠ some [] := by decide
+
 /-! ## LRU checkpoint -/
 
 /-- `checkpoint_to_disk` as repaired (commit 1b2b74f) + `run_cycle`'s load (highest generation,
